@@ -231,4 +231,11 @@ Battery ==
 
 Emit == (Mode \in {"builders", "queries"} /\ S.form = "ef") =>
             PrintT(<<"SCRIPT", ToJson([fam |-> "ef", src |-> "tlc", ops |-> hist \o Battery])>>)
+
+\* a builder that still misses exactly one value is finished anyway
+EmitShort == (Mode = "builders" /\ S.form = "builder" /\ Len(xs) + 1 = S.n /\ Len(hist) = S.n + Extra) =>
+            PrintT(<<"SCRIPT", ToJson([fam |-> "ef", src |-> "tlc",
+                     ops |-> hist \o <<[op |-> "build", kind |-> KindSeq[(Mix(xs) % Len(KindSeq)) + 1]],
+                                       [op |-> "len"], [op |-> "iter"], [op |-> "get", i |-> 0],
+                                       [op |-> "get", i |-> Len(xs)], [op |-> "iter_from", k |-> Len(xs)]>>])>>)
 =============================================================================
